@@ -236,7 +236,22 @@ Builtin(fn, args, env) ==
               ELSE IF ~HasRe(args[2]) THEN Oou
               ELSE IF AnyEmptyMatch(args[2].re, s.v, 0) THEN Oou
               ELSE S(SubAll(args[2].re, s.v, 0, r.v))
-    [] fn = "fuzzy" -> Oou
+    \* fuzzy(): "similar to" is documented by example only.  What every reading agrees on is all that is stated here: a text that
+    \* CONTAINS the pattern verbatim (ignoring case) is similar to it at any threshold up to 1, a text that shares no character
+    \* with the pattern is similar at no positive threshold; everything in between is outside the model.
+    [] fn = "fuzzy" ->
+         IF n \notin {1, 2, 3} THEN Err
+         ELSE LET thr == IF n = 3 THEN args[3] ELSE IF n = 2 /\ IsNumLike(args[2]) THEN args[2] ELSE Num(4, 5, TRUE)
+                  text == IF n = 3 \/ (n = 2 /\ ~IsNumLike(args[2])) THEN args[1] ELSE S(env.desc)
+                  pat == IF n = 3 \/ (n = 2 /\ ~IsNumLike(args[2])) THEN args[2] ELSE args[1] IN
+              IF ~(IsStr(text) /\ IsStr(pat)) THEN (IF text.t = "bool" \/ pat.t = "bool" THEN Oou ELSE Err)
+              ELSE IF ~IsNumLike(thr) \/ thr.t = "bool" THEN Oou
+              ELSE LET t == AsNum(thr) IN
+                   IF t.n <= 0 \/ NumLess(Int_(1), t) THEN Oou                       \* thresholds outside (0, 1]: not judged
+                   ELSE IF pat.v = <<>> \/ text.v = <<>> THEN Oou
+                   ELSE IF Contains(UpperT(text.v), UpperT(pat.v)) THEN B(TRUE)
+                   ELSE IF \A i \in 1..Len(pat.v) : \A j \in 1..Len(text.v) : UpperT(pat.v)[i] # UpperT(text.v)[j] THEN B(FALSE)
+                   ELSE Oou
     [] OTHER -> Err                                    \* unknown function
 
 \* ------------------------------------------------------------- evaluation --
